@@ -113,8 +113,23 @@ impl<'tcx> Dumper<'tcx> {
                 _ => {}
             }
         }
+        // local struct / enum definitions: variant and field names in declaration order
+        let mut adts = Vec::new();
+        for ldid in tcx.hir_crate_items(()).definitions() {
+            let did = ldid.to_def_id();
+            if matches!(tcx.def_kind(did), DefKind::Struct | DefKind::Enum | DefKind::Union) {
+                let adt = tcx.adt_def(did);
+                let mut vs = Vec::new();
+                for v in adt.variants().iter() {
+                    let fs: Vec<J> = v.fields.iter().map(|f| jstr(f.name.to_string())).collect();
+                    vs.push(J::obj(vec![("name", jstr(v.name.to_string())), ("fields", J::Arr(fs))]));
+                }
+                adts.push(J::obj(vec![("path", jstr(tcx.def_path_str(did))), ("variants", J::Arr(vs))]));
+            }
+        }
         J::obj(vec![
             ("crate", jstr(name)),
+            ("adts", J::Arr(adts)),
             ("fns", J::Arr(fns)),
             ("consts", J::Arr(consts)),
             ("spans", J::Arr(std::mem::take(&mut self.spans))),
